@@ -4,6 +4,7 @@ import Hgxv.Proofs.C16Output
 import Hgxv.Proofs.C16Sample
 import Hgxv.Proofs.C16Relabel
 import Hgxv.Proofs.C16Ext
+import Hgxv.Proofs.C16Deg
 /-! # C16 — Hy-MMSBM sampler: valid hypergraphs, conditioning respected, seed decides the sequence
 
 Theorems about the model `Hgxv/Model/C16.lean`.  Every statement is for **all oracle values**: all picks of
@@ -1190,3 +1191,68 @@ example : runSessionX ⟨some true⟩
      (some ⟨some false, [[([0, 1, 2], 2), ([0, 1], 2)]]⟩, some false),
      (none, some false),
      (some ⟨some true, [[([0, 1, 3], 1), ([0, 1, 2], 2)]]⟩, some true)] := by decide
+
+/-! ## round f: degenerate hyperedges (fewer than two nodes) in the chain state
+
+`Model/C16Deg.lean`: a hyperedge with fewer than two nodes has a nan Poisson mean, hence a non-positive weight
+(`degenWeights`), whatever the quantile tape holds.  No hypothesis on the sizes of the configuration below. -/
+
+/-- the sample made from a chain state with degenerate hyperedges is the sample made from its hyperedges of
+size >= 2 alone (every theorem about `outputStage` applies to the right-hand side) -/
+theorem C16_degenerate_refines (cfg : Config) (ws : List Nat) (labels : Option (List Nat)) (h : ws.length = cfg.length) :
+    outputStage cfg (degenWeights cfg ws) labels = outputStage (properCfg cfg ws) (properWs cfg ws) labels := by
+  unfold outputStage
+  rw [if_pos (degenWeights_length cfg ws h), if_pos (proper_lengths cfg ws), dropZeros_degen]
+
+/-- "only hyperedges of size at least two" for EVERY configuration (initial hypergraphs / size sequences with one-node
+or empty hyperedges included): every hyperedge of the yielded hypergraph has at least two nodes and is (the relabelled
+canonical form of) a hyperedge of size >= 2 of the chain state; no repeated hyperedge, positive weights -/
+theorem C16_degenerate_sizes (cfg : Config) (ws : List Nat) (labels : Option (List Nat)) (out : List (Hye × Nat))
+    (hn : AllNodup cfg) (hl : ∀ ls, labels = some ls → ls.Pairwise (· < ·)) (hlen : ws.length = cfg.length)
+    (h : outputStage cfg (degenWeights cfg ws) labels = some out) :
+    (∀ p ∈ out, 2 ≤ p.1.length) ∧ (out.map (·.1)).Nodup ∧ (∀ p ∈ out, 0 < p.2) ∧
+    (∀ p ∈ out, ∃ e ∈ cfg, 2 ≤ e.length ∧ p.1.length = e.length) := by
+  rw [C16_degenerate_refines cfg ws labels hlen] at h
+  have hn' : AllNodup (properCfg cfg ws) := fun e he => hn e (properCfg_mem he).1
+  obtain ⟨v1, v2, _, v4, _⟩ := C16_output_valid _ _ labels out hn' hl h
+  have key : ∀ p ∈ out, ∃ e ∈ cfg, 2 ≤ e.length ∧ p.1.length = e.length := by
+    intro p hp
+    obtain ⟨e, he, hpe⟩ := v4 p hp
+    exact ⟨e, (properCfg_mem he).1, (properCfg_mem he).2, hpe⟩
+  refine ⟨?_, v1, v2, key⟩
+  intro p hp
+  obtain ⟨e, _, h2, hpe⟩ := key p hp
+  omega
+
+/-- conditioning with degenerate hyperedges in the chain state (nodes are indices): no node / size of the yielded
+hypergraph exceeds its count among the hyperedges of size >= 2 of the chain state, and whenever no two of THESE
+coincide the yielded hypergraph has exactly their degrees and size counts - whatever quantiles scipy delivers -/
+theorem C16_degenerate_exact (cfg : Config) (qs : List Nat) (out : List (Hye × Nat)) (hlen : qs.length = cfg.length)
+    (h : outputStageD cfg qs none = some out) :
+    (∀ n, degOf n (out.map (·.1)) ≤ degOf n (properCfg cfg (truncWeights qs))) ∧
+    (∀ s, sizeCount s (out.map (·.1)) ≤ sizeCount s (properCfg cfg (truncWeights qs))) ∧
+    (((properCfg cfg (truncWeights qs)).map canon).Nodup →
+      (∀ n, degOf n (out.map (·.1)) = degOf n (properCfg cfg (truncWeights qs))) ∧
+      (∀ s, sizeCount s (out.map (·.1)) = sizeCount s (properCfg cfg (truncWeights qs)))) := by
+  have hl : (truncWeights qs).length = cfg.length := by simp [truncWeights, hlen]
+  unfold outputStageD at h
+  rw [C16_degenerate_refines cfg _ none hl] at h
+  obtain ⟨b1, b2, b3⟩ := C16_output_bounds _ _ out h
+  refine ⟨b1, b2, fun hnd => b3 ?_ hnd⟩
+  intro w hw
+  simp only [properWs, properPairs, List.mem_map, List.mem_filter] at hw
+  obtain ⟨p, ⟨hp, _⟩, rfl⟩ := hw
+  exact truncWeights_pos qs p.2 (List.of_mem_zip hp).2
+
+/-- on the configurations of the older theorems (every hyperedge has at least two nodes) nothing changes -/
+theorem C16_degenerate_agrees (cfg : Config) (qs : List Nat) (labels : Option (List Nat)) (hlen : qs.length = cfg.length)
+    (h2 : ∀ e ∈ cfg, 2 ≤ e.length) :
+    outputStageD cfg qs labels = outputStage cfg (truncWeights qs) labels := by
+  unfold outputStageD
+  rw [degenWeights_all cfg _ (by simp [truncWeights, hlen]) h2]
+
+/- non-vacuity: a one-node hyperedge (quantile 5) and the empty hyperedge are dropped, a quantile 0 is clamped to 1 -/
+example : outputStageD [[0, 1], [2], [3, 1, 2], []] [3, 5, 0, 2] none = some [([0, 1], 3), ([1, 2, 3], 1)] := by decide
+example : outputStageD [[0, 1], [1], [1, 0]] [3, 5, 2] (some [4, 9]) = some [([4, 9], 5)] := by decide
+example : properCfg [[0, 1], [2], [3, 1, 2], []] (truncWeights [3, 5, 0, 2]) = [[0, 1], [3, 1, 2]] := by decide
+
